@@ -180,7 +180,7 @@ static int bn_param_eq(EVP_PKEY *a, EVP_PKEY *b, const char *param)
 #define MISMATCH(name) do { if (nmis < 16) mis[nmis++] = (name); } while (0)
 
 static unsigned long n_okp_lz;
-static unsigned long n_oct_special, n_after_poison;
+static unsigned long n_oct_special, n_after_poison, n_recycled;
 int main(int argc, char **argv)
 {
 	vh_args_t a;
@@ -253,6 +253,20 @@ int main(int argc, char **argv)
 					free(doc);
 					it = set && jwks_item_count(set) == 2 ? jwks_item_get(set, 1) : NULL;
 					n_after_poison++;
+				} else if ((var % 3) == 1) {
+					/* another third: a keyring that is being refreshed.  A key rich in metadata (use, key_ops, alg, kid, curve) is loaded
+					 * and dropped first, then the key under test is loaded into the same set: nothing of the dropped key may show on it */
+					static const char *DECOY[] = {
+						"{\"kty\":\"EC\",\"crv\":\"P-256\",\"x\":\"MKBCTNIcKUSDii11ySs3526iDZ8AiTo7Tu6KPAqv7D4\",\"y\":\"4Etl6SRW2YiLUrN5vfvVHuhp7x8PxltmWWlbbM4IFyM\","
+						"\"use\":\"enc\",\"key_ops\":[\"deriveKey\",\"deriveBits\"],\"alg\":\"ES256\",\"kid\":\"dropped-key\"}",
+						"{\"kty\":\"oct\",\"k\":\"AAECAwQFBgcICQoLDA0ODxAREhMUFRYXGBkaGxwdHh8gISIjJCUmJygpKissLS4vMDEyMzQ1Njc4OTo7PD0-Pw\","
+						"\"use\":\"sig\",\"key_ops\":[\"sign\",\"verify\"],\"alg\":\"HS512\",\"kid\":\"dropped-oct\"}" };
+					set = jwks_create(DECOY[(idx + var / 3) % 2]);
+					if (!set || jwks_item_count(set) != 1 || jwks_item_error(jwks_item_get(set, 0))) vh_harness_fail("decoy key not imported");
+					if (!jwks_item_free(set, 0) || jwks_item_count(set) != 0) vh_harness_fail("decoy key not dropped");
+					jwks_load(set, jwk);
+					it = jwks_item_count(set) == 1 ? jwks_item_get(set, 0) : NULL;
+					n_recycled++;
 				} else {
 					set = jwks_create(jwk);
 					it = set && jwks_item_count(set) == 1 ? jwks_item_get(set, 0) : NULL;
@@ -334,6 +348,6 @@ int main(int argc, char **argv)
 	}
 	printf("[\"STATS\",%lu]\n", nchecked);
 	printf("[\"OKPLZ\",%lu]\n", n_okp_lz);
-	printf("[\"EXTRA\",%lu,%lu]\n", n_oct_special, n_after_poison);
+	printf("[\"EXTRA\",%lu,%lu,%lu]\n", n_oct_special, n_after_poison, n_recycled);
 	return 0;
 }
